@@ -21,7 +21,7 @@ func init() {
 			Rule: "M: every line of <=4 (quick) / 5 (thorough, reduced alphabet at 5) items from: text chunks {a, xy, é, 日本, 😀, space, \"a b\"}, \\[ and \\], markers over names {a, b, é1} (open, close by name, close all, self-closing) with property sets covering integer, decimals (1.05, 2.50, 0.007), booleans in any case, bare word, quoted string with spaces and escaped quote, shorthand [a=v], 2-3 properties, trimwhitespace=false, " +
 				"replacement markers select / plural / ordinal / nomarkup (self-closing and closed by name, every ordinal case value, % placeholders, multi-byte replacement text), with nested / overlapping / repeated arrangements by well-formedness-preserving choices; x optional character prefix (ASCII / multi-byte) x optional leading / trailing whitespace (for <=3 items); " +
 				"S: every marker structure of <=8 (quick) / 11 (thorough) markers over {open a, open b, close a, close b, close all}, each followed by a character of text (same-name markers open at the same time: first-in-first-out and last-in-first-out pairings both accepted, but removing the markers of the other name must not change the pairing); the <=3-item lines are also shown through the runner and Line.Attributes compared; " +
-				"RV: plural and ordinal markers over every value 0..130 and six large ones in three positions; V: every numeric property value i.f over a grid of integer parts (incl. leading zeros, 2^52+1, 2^53+1 in the thorough tier) x every fraction string of <=3 (quick) / 4 (thorough) digits plus long fractions of up to 40 digits, in four syntactic positions, expected value = the decimal meaning of the characters written; runner / runner-options: the short lines shown as dialogue lines and as the 2-3 options of one choice (all options are prepared by one parser and returned together); " +
+				"QS: every quoted property value of <=3 symbols over {a, space, é, escaped quote, escaped backslash, ], [, =, /} in four positions; RV: plural and ordinal markers over every value 0..130 and six large ones in three positions; V: every numeric property value i.f over a grid of integer parts (incl. leading zeros, 2^52+1, 2^53+1 in the thorough tier) x every fraction string of <=3 (quick) / 4 (thorough) digits plus long fractions of up to 40 digits, in four syntactic positions, expected value = the decimal meaning of the characters written; runner / runner-options: the short lines shown as dialogue lines and as the 2-3 options of one choice (all options are prepared by one parser and returned together); " +
 				"constructive oracle (plain text, per marker name / typed properties / position / length in characters / TextForAttribute); a case is one line; non-trivial = contains at least one marker",
 			StatesMean:  "distinct generated lines; transitions = ParseMarkup calls (plus Next calls for the runner part)",
 			Assumptions: []string{"constructions without a single meaning under the property are not checked: a self-closing marker between whitespace (one following space may be trimmed), a colon outside the prefix, leading whitespace before a prefix", "attributes of replacement markers themselves, attribute order and SourcePosition are not constrained here", "markers left open at the end of the line are C14/C15 material"},
@@ -326,6 +326,57 @@ func runC13(ctx *report.Ctx) {
 				return
 			}
 			checkLine(ctx, c, "M5", l, markers > 0, nil)
+		})
+	}
+
+	// QS: quoted property values. Every string of <=3 symbols over {a, space, é, \" (escaped quote), \\ (escaped
+	// backslash), ], [, =, /} between quotes (the empty string included), as a property value, as shorthand value, in a
+	// self-closing marker and as the replacement text of a select marker; the value is the text with the escapes resolved
+	{
+		type sym struct{ src, val string }
+		syms := []sym{{"a", "a"}, {" ", " "}, {"é", "é"}, {`\"`, `"`}, {`\\`, `\`}, {"]", "]"}, {"[", "["}, {"=", "="}, {"/", "/"}}
+		part(ctx, "QS", -1, func(c *explore.Chooser) {
+			n := c.Choose(4, "len")
+			var src, val string
+			for i := 0; i < n; i++ {
+				sy := syms[c.Choose(len(syms), "symbol")]
+				src += sy.src
+				val += sy.val
+			}
+			form := c.Choose(4, "form")
+			if !c.Mine() {
+				return
+			}
+			l := &mg.Line{}
+			l.Text("t ")
+			pr := pQuoted("s", `"`+src+`"`, val)
+			switch form {
+			case 0:
+				l.Open("a", []mg.Prop{pInt("n", 1), pr}, false)
+				l.Text("u")
+				l.Close("a")
+			case 1:
+				pr.Name = "a"
+				l.Open("a", []mg.Prop{pr}, true)
+				l.Text("u")
+				l.CloseAll()
+			case 2:
+				l.SelfClosing("a", []mg.Prop{pr})
+			case 3:
+				if strings.Contains(val, "%") {
+					return
+				}
+				l.Replacement(`[select value=k k="`+src+`" /]`, val)
+			}
+			if !l.Finish() {
+				ctx.HarnessError("C13 QS: construction not closed: %s", l.Src.String())
+				return
+			}
+			if l.Ambiguous != "" {
+				ctx.Skip("construction has no single meaning")
+				return
+			}
+			checkLine(ctx, c, "QS", l, true, nil)
 		})
 	}
 
